@@ -1,6 +1,6 @@
 (* C14 - diagnostics point at the offending construct in the user's own file.
    Property theorems only; proofs live in RegionProofs.v. *)
-From HclV Require SpanParserSpec SpanParserProofs DiagSpec DiagProofs.
+From HclV Require SpanParserSpec SpanParserProofs DiagSpec DiagProofs SpanBuildSpec SpanBuildProofs ParseDiagSpec ParseDiagProofs Generated Build.
 From HclV Require Import Base Yo Region RegionSpec RegionProofs RegionMultiSpec RegionMultiProofs.
 From HclV Require LexLocSpec LexLocProofs.
 Open Scope list_scope.
@@ -190,3 +190,167 @@ Proof.
   split; [exact DiagProofs.render_regions_located_holds | exact DiagProofs.render_regions_never_preamble_holds].
 Qed.
 Print Assumptions C14_diagnostic_shows_the_regions_of_its_spans.
+
+(* ---- the spans of the builder's and the checker's diagnostics (SpanBuild*.v): spanned versions of
+   get_width_and_check / evaluate (check_sp, eval_sp) and of Program::new (build_program_sp) that
+   report every diagnostic WITH the spans the real code attaches (compared with the real program's
+   on every run) ------------------------------------------------------------------------------- *)
+(* forgetting the spans gives exactly Expr.check / Expr.eval / Build.build_program: same acceptance,
+   same compiled program, same diagnostics in the same order - every theorem about them transfers *)
+Theorem C14_spanned_builder_is_the_builder :
+  SpanBuildSpec.stmt_check_sp_erases /\ SpanBuildSpec.stmt_eval_sp_erases /\
+  SpanBuildSpec.stmt_build_sp_erases /\ SpanBuildSpec.stmt_front_sp_erases.
+Proof.
+  split; [exact SpanBuildProofs.check_sp_erases_holds |].
+  split; [exact SpanBuildProofs.eval_sp_erases_holds |].
+  split; [exact SpanBuildProofs.build_sp_erases_holds | exact SpanBuildProofs.front_sp_erases_holds].
+Qed.
+Print Assumptions C14_spanned_builder_is_the_builder.
+(* expression-level diagnostics underline a node of the expression being checked, and which one:
+   the non-boolean operand of && / ||, both operands of a width mismatch, the whole mux (default
+   option faults) or all option values (width fault), the undeclared name itself, the whole slice,
+   the whole concatenation / its operand without width *)
+Theorem C14_expression_diagnostics_underline_the_offending_node :
+  SpanBuildSpec.stmt_check_sp_faults /\ SpanBuildSpec.stmt_eval_sp_faults /\
+  SpanBuildSpec.stmt_check_spans_are_node_spans /\ SpanBuildSpec.stmt_eval_spans_are_node_spans /\
+  SpanBuildSpec.stmt_check_span_of_NonBooleanWidth /\ SpanBuildSpec.stmt_check_span_of_MismatchedExprWidths /\
+  SpanBuildSpec.stmt_check_span_of_mux_kinds /\ SpanBuildSpec.stmt_check_span_of_UndeclaredWireRead /\
+  SpanBuildSpec.stmt_check_span_of_bit_index_kinds /\ SpanBuildSpec.stmt_check_span_of_concat_kinds.
+Proof.
+  split; [exact SpanBuildProofs.check_sp_faults_holds |].
+  split; [exact SpanBuildProofs.eval_sp_faults_holds |].
+  split; [exact SpanBuildProofs.check_spans_are_node_spans_holds |].
+  split; [exact SpanBuildProofs.eval_spans_are_node_spans_holds |].
+  split; [exact SpanBuildProofs.check_span_of_NonBooleanWidth_holds |].
+  split; [exact SpanBuildProofs.check_span_of_MismatchedExprWidths_holds |].
+  split; [exact SpanBuildProofs.check_span_of_mux_kinds_holds |].
+  split; [exact SpanBuildProofs.check_span_of_UndeclaredWireRead_holds |].
+  split; [exact SpanBuildProofs.check_span_of_bit_index_kinds_holds | exact SpanBuildProofs.check_span_of_concat_kinds_holds].
+Qed.
+Print Assumptions C14_expression_diagnostics_underline_the_offending_node.
+(* every span of every diagnostic of Program::new is a span the parser recorded in the statements
+   (no placeholder), and kind by kind it is the offending construct: the (re)declaration(s) of the
+   name, the occurrences of the name left of '=', the register / bank declaration, the expression
+   assigned to the wire, the default expression, the named-wire node ...; the remaining kinds show
+   no location - for every option set, component table and letter classification *)
+Theorem C14_builder_diagnostics_underline_the_offending_construct :
+  forall f fixed is_lower is_upper,
+    SpanBuildSpec.stmt_error_spans_are_recorded_spans f fixed is_lower is_upper /\
+    SpanBuildSpec.stmt_span_of_RedeclaredWire f fixed is_lower is_upper /\
+    SpanBuildSpec.stmt_span_of_RedeclaredBuiltinWire f fixed is_lower is_upper /\
+    SpanBuildSpec.stmt_span_of_DoubleAssignedWire f fixed is_lower is_upper /\
+    SpanBuildSpec.stmt_span_of_DoubleAssignedFixedOutWire f fixed is_lower is_upper /\
+    SpanBuildSpec.stmt_span_of_ConstantAssigned f fixed is_lower is_upper /\
+    SpanBuildSpec.stmt_span_of_NonConstantWireRead f fixed is_lower is_upper /\
+    SpanBuildSpec.stmt_span_of_UndeclaredWireRead f fixed is_lower is_upper /\
+    SpanBuildSpec.stmt_span_of_InvalidRegisterBankName f fixed is_lower is_upper /\
+    SpanBuildSpec.stmt_span_of_DoubleAssignedRegisterWire f fixed is_lower is_upper /\
+    SpanBuildSpec.stmt_span_of_DoubleDeclaredRegisterOutWire f fixed is_lower is_upper /\
+    SpanBuildSpec.stmt_span_of_MismatchedRegisterDefaultWidths f fixed is_lower is_upper /\
+    SpanBuildSpec.stmt_span_of_UnsetWire f fixed is_lower is_upper /\
+    SpanBuildSpec.stmt_span_of_UnsetRegisterInputWire f fixed is_lower is_upper /\
+    SpanBuildSpec.stmt_span_of_UndeclaredWireAssigned f fixed is_lower is_upper /\
+    SpanBuildSpec.stmt_span_of_MismatchedWireWidths f fixed is_lower is_upper /\
+    SpanBuildSpec.stmt_span_of_expression_kinds f fixed is_lower is_upper /\
+    SpanBuildSpec.stmt_unlocated_kinds f fixed is_lower is_upper.
+Proof.
+  intros f fixed il iu.
+  split; [exact (SpanBuildProofs.error_spans_are_recorded_spans_holds f fixed il iu) |].
+  split; [exact (SpanBuildProofs.span_of_RedeclaredWire_holds f fixed il iu) |].
+  split; [exact (SpanBuildProofs.span_of_RedeclaredBuiltinWire_holds f fixed il iu) |].
+  split; [exact (SpanBuildProofs.span_of_DoubleAssignedWire_holds f fixed il iu) |].
+  split; [exact (SpanBuildProofs.span_of_DoubleAssignedFixedOutWire_holds f fixed il iu) |].
+  split; [exact (SpanBuildProofs.span_of_ConstantAssigned_holds f fixed il iu) |].
+  split; [exact (SpanBuildProofs.span_of_NonConstantWireRead_holds f fixed il iu) |].
+  split; [exact (SpanBuildProofs.span_of_UndeclaredWireRead_holds f fixed il iu) |].
+  split; [exact (SpanBuildProofs.span_of_InvalidRegisterBankName_holds f fixed il iu) |].
+  split; [exact (SpanBuildProofs.span_of_DoubleAssignedRegisterWire_holds f fixed il iu) |].
+  split; [exact (SpanBuildProofs.span_of_DoubleDeclaredRegisterOutWire_holds f fixed il iu) |].
+  split; [exact (SpanBuildProofs.span_of_MismatchedRegisterDefaultWidths_holds f fixed il iu) |].
+  split; [exact (SpanBuildProofs.span_of_UnsetWire_holds f fixed il iu) |].
+  split; [exact (SpanBuildProofs.span_of_UnsetRegisterInputWire_holds f fixed il iu) |].
+  split; [exact (SpanBuildProofs.span_of_UndeclaredWireAssigned_holds f fixed il iu) |].
+  split; [exact (SpanBuildProofs.span_of_MismatchedWireWidths_holds f fixed il iu) |].
+  split; [exact (SpanBuildProofs.span_of_expression_kinds_holds f fixed il iu) |].
+  exact (SpanBuildProofs.unlocated_kinds_holds f fixed il iu).
+Qed.
+Print Assumptions C14_builder_diagnostics_underline_the_offending_construct.
+(* "never attributed to the built-in preamble": for the compiled preamble followed by the user's
+   text, every span of every diagnostic is token-aligned, inside the text and rendered in the user's
+   file on the right line with carets under exactly the span - except the SECOND span of
+   "redeclared" / "constant assigned" about a preamble name, which legitimately shows the preamble's
+   declaration ("after being declared here", headed <builtin>); the draft without the exception is
+   refuted by 'const HALT = 3;' *)
+Theorem C14_user_faults_are_located_in_the_user_file :
+  SpanBuildSpec.stmt_build_diagnostics_located /\ SpanBuildSpec.stmt_build_diagnostics_in_user_file /\
+  (forall f fixed is_lower is_upper, SpanBuildSpec.stmt_user_faults_not_attributed_to_preamble f fixed is_lower is_upper) /\
+  ~ SpanBuildSpec.stmt_user_faults_never_show_preamble Generated.gen_features Generated.gen_fixed Build.ascii_lower Build.ascii_upper.
+Proof.
+  split; [exact SpanBuildProofs.build_diagnostics_located_holds |].
+  split; [exact SpanBuildProofs.build_diagnostics_in_user_file_holds |].
+  split; [exact SpanBuildProofs.user_faults_not_attributed_to_preamble_holds |].
+  exact SpanBuildProofs.user_faults_never_show_preamble_refuted.
+Qed.
+Print Assumptions C14_user_faults_are_located_in_the_user_file.
+
+(* ---- the grammar's own diagnostic productions (ParseDiag*.v): 'wire x', 'wire x : 8 = 1',
+   'const K : 8 = 1', 'x [ ... ]' without '=', register declarations without width / with 'wire',
+   a bare expression as a statement, width and bit-index constants above 128 ------------------- *)
+(* the extension is conservative: a text yields no diagnostic exactly when the spanned parser
+   accepts it, with the same statements *)
+Theorem C14_grammar_diagnostics_conservative :
+  ParseDiagSpec.stmt_diag_conservative /\ ParseDiagSpec.stmt_diag_conservative_text /\
+  ParseDiagSpec.stmt_diag_none_iff_accepted /\ ParseDiagSpec.stmt_diag_outcome_ok.
+Proof.
+  split; [exact ParseDiagProofs.diag_conservative_holds |].
+  split; [exact ParseDiagProofs.diag_conservative_text_holds |].
+  split; [exact ParseDiagProofs.diag_none_iff_accepted_holds | exact ParseDiagProofs.diag_outcome_ok_holds].
+Qed.
+Print Assumptions C14_grammar_diagnostics_conservative.
+(* their spans are token-aligned, inside their own statement, in text order, non-empty, inside the
+   text; after the compiled preamble they all belong to the user's part and are rendered in the
+   user's file on the right line with carets under exactly the span *)
+Theorem C14_grammar_diagnostics_located :
+  ParseDiagSpec.stmt_diag_spans_token_aligned /\ ParseDiagSpec.stmt_diag_spans_in_statement /\
+  ParseDiagSpec.stmt_diag_spans_in_text /\ ParseDiagSpec.stmt_diag_statements_in_text_order /\
+  ParseDiagSpec.stmt_diag_user_span_rendered /\ ParseDiagSpec.stmt_diag_user_span_rendered_gen /\
+  ParseDiagSpec.stmt_diag_all_user_gen.
+Proof.
+  split; [exact ParseDiagProofs.diag_spans_token_aligned_holds |].
+  split; [exact ParseDiagProofs.diag_spans_in_statement_holds |].
+  split; [exact ParseDiagProofs.diag_spans_in_text_holds |].
+  split; [exact ParseDiagProofs.diag_statements_in_text_order_holds |].
+  split; [exact ParseDiagProofs.diag_user_span_rendered_holds |].
+  split; [exact ParseDiagProofs.diag_user_span_rendered_gen_holds | exact ParseDiagProofs.diag_all_user_gen_holds].
+Qed.
+Print Assumptions C14_grammar_diagnostics_located.
+(* which construct each one underlines (the declared name; from the name to the '='; from the ':'
+   to the width; the name before '['; the register declaration; the 'wire' keyword; the bare
+   term), and conversely each such malformed declaration yields exactly that diagnostic *)
+Theorem C14_grammar_diagnostics_underline_the_offending_construct :
+  ParseDiagSpec.stmt_diag_grammar_sound /\ ParseDiagSpec.stmt_diag_statement_forms /\ ParseDiagSpec.stmt_diag_from_declaration /\
+  ParseDiagSpec.stmt_diag_missing_wire_width_span /\ ParseDiagSpec.stmt_diag_wire_assigned_span /\
+  ParseDiagSpec.stmt_diag_added_const_width_span /\ ParseDiagSpec.stmt_diag_missing_assignment_mux_span /\
+  ParseDiagSpec.stmt_diag_missing_register_width_span /\ ParseDiagSpec.stmt_diag_register_declared_with_wire_span /\
+  ParseDiagSpec.stmt_diag_expected_statement_span /\
+  ParseDiagSpec.stmt_diag_wire_decl_complete /\ ParseDiagSpec.stmt_diag_const_decl_complete /\
+  ParseDiagSpec.stmt_diag_assignment_complete /\ ParseDiagSpec.stmt_diag_reg_decl_complete /\
+  ParseDiagSpec.stmt_diag_invalid_wire_width_complete /\ ParseDiagSpec.stmt_diag_invalid_constant_complete.
+Proof.
+  split; [exact ParseDiagProofs.diag_grammar_sound_holds |].
+  split; [exact ParseDiagProofs.diag_statement_forms_holds |].
+  split; [exact ParseDiagProofs.diag_from_declaration_holds |].
+  split; [exact ParseDiagProofs.diag_missing_wire_width_span_holds |].
+  split; [exact ParseDiagProofs.diag_wire_assigned_span_holds |].
+  split; [exact ParseDiagProofs.diag_added_const_width_span_holds |].
+  split; [exact ParseDiagProofs.diag_missing_assignment_mux_span_holds |].
+  split; [exact ParseDiagProofs.diag_missing_register_width_span_holds |].
+  split; [exact ParseDiagProofs.diag_register_declared_with_wire_span_holds |].
+  split; [exact ParseDiagProofs.diag_expected_statement_span_holds |].
+  split; [exact ParseDiagProofs.diag_wire_decl_complete_holds |].
+  split; [exact ParseDiagProofs.diag_const_decl_complete_holds |].
+  split; [exact ParseDiagProofs.diag_assignment_complete_holds |].
+  split; [exact ParseDiagProofs.diag_reg_decl_complete_holds |].
+  split; [exact ParseDiagProofs.diag_invalid_wire_width_complete_holds | exact ParseDiagProofs.diag_invalid_constant_complete_holds].
+Qed.
+Print Assumptions C14_grammar_diagnostics_underline_the_offending_construct.
